@@ -285,3 +285,16 @@ Example C20_two_faults_wrong_time :
                   hw_stream [HEdge 25165900 9 false; HMarker 3])] =
     Ok [Row 2 1 true None; Row 2 8 false (Some 33554516); Row 2 9 true None].
 Proof. vm_compute. reflexivity. Qed.
+
+(* the same with ARBITRARY other boards in the run (any content, well-formed or not, any interleaving of the banks):
+   board b has a bank and its banks concatenate to the damaged stream; the program fails as a whole, or the rows OF
+   BOARD b among the CSV rows are sound in the sense above *)
+Theorem C20_fault_burst_among_boards_no_wrong_time : forall b l1 mid X l2 pieces,
+  hw_wf 0 (l1 ++ mid ++ l2) -> Forall word_ok X ->
+  present b pieces = true -> concat_of b pieces = hw_stream l1 ++ words_stream X ++ hw_stream l2 ->
+  (exists k, cb_program pieces = Err k) \/
+  (exists rows, cb_program pieces = Ok rows /\
+     Forall2 (row_sound b) (owed false (hw_tagged l1 ++ junk X ++ hw_tagged l2))
+             (filter (fun r => r_board r =? b) rows)).
+Proof. exact fault_program_boards. Qed.
+Print Assumptions C20_fault_burst_among_boards_no_wrong_time.
